@@ -149,7 +149,7 @@ func anchored(o M) *operation.AnchoredOperation {
 		Type:              operation.Type(o["type"].(string)),
 		UniqueSuffix:      o["suffix"].(string),
 		OperationRequest:  proto.UnHex(o["req"].(string)),
-		TransactionTime:   uint64(proto.Num(o["t"])),
+		TransactionTime:   proto.UNum(o["t"]),
 		TransactionNumber: uint64(proto.Num(o["n"])),
 		ProtocolVersion:   uint64(proto.Num(o["v"])),
 	}
